@@ -48,3 +48,26 @@ func VerifC20_SignBytes() {
 	zz.Assert("C20.signbytes.deterministic", zz.BytesEqual(sa, sa2))
 	zz.Reach("C20.signbytes.end")
 }
+
+// VerifC20_VerifierSignBytesCoverMemo: the sign bytes the ante handler checks a signature against (GetSignBytes of
+// the submitted transaction) cover every byte of the memo: two transactions whose memos differ - also only in leading
+// or trailing white space - have different sign bytes; equal memos give equal sign bytes.
+func VerifC20_VerifierSignBytesCoverMemo() {
+	from := sdk.Address(make([]byte, 20))
+	msg := postypes.MsgSend{FromAddress: from, ToAddress: from, Amount: sdk.NewInt(1)}
+	fee := sdk.NewCoins(sdk.NewCoin(sdk.DefaultStakeDenom, sdk.NewInt(10)))
+	memos := []string{"m", " m", "m ", "m\n", "\tm", "", " "}
+	i, j := zz.Choice("memo1", len(memos)), zz.Choice("memo2", len(memos))
+	t1 := types.NewStdTx(msg, fee, types.StdSignature{}, memos[i], 7)
+	t2 := types.NewStdTx(msg, fee, types.StdSignature{}, memos[j], 7)
+	b1, e1 := GetSignBytes("c", t1)
+	b2, e2 := GetSignBytes("c", t2)
+	zz.Assert("C20.verifier-signbytes.no-error", e1 == nil && e2 == nil)
+	zz.Assert("C20.verifier-signbytes.equal-iff-same-memo", zz.BytesEqual(b1, b2) == (i == j))
+	// symbolic memo bytes as well
+	m3 := string(zz.Bytes("memo3", 2))
+	t3 := types.NewStdTx(msg, fee, types.StdSignature{}, m3, 7)
+	b3, _ := GetSignBytes("c", t3)
+	zz.Assert("C20.verifier-signbytes.symbolic-memo", zz.BytesEqual(b1, b3) == (memos[i] == m3))
+	zz.Reach("C20.verifier-signbytes.end")
+}
